@@ -172,6 +172,10 @@ func (g *Gen) cmsDims() cmsCfg {
 	cols := g.Pick(1, 1, 2, 3, 5, 8, 16, 64, 257, 1000)
 	if g.Small {
 		cols = g.Pick(1, 2, 3, 5, 8)
+	} else if g.Chance(0.04) {
+		// rarely: rows wider than 4096 cells (chunked Lua pushes, unpack limits; miniredis allows ~5100)
+		rows = g.Pick(1, 2)
+		cols = 4090 + g.Intn(950)
 	}
 	return cmsCfg{rows, cols}
 }
